@@ -109,6 +109,14 @@ pub fn tracked<R>(f: impl FnOnce() -> R) -> R {
     let _r = Restore(prev);
     f()
 }
+/// run `f` with allocation tracking off (harness bookkeeping inside library calls)
+#[inline]
+pub fn untracked<R>(f: impl FnOnce() -> R) -> R {
+    let prev = TRACK.swap(false, Ordering::Relaxed);
+    let r = f();
+    TRACK.store(prev, Ordering::Relaxed);
+    r
+}
 pub fn live() -> usize {
     LIVE.load(Ordering::Relaxed)
 }
